@@ -14,6 +14,8 @@ is identified by the *parameter of the callee it reaches* (names from the callee
   sinusoidal RF: revolutionpart, V_RF, f_RF, V0 of the sinusoidal constructors
   qmin, qmax, pmin, pmax   of the PhaseSpace constructor that takes the axis extents (and of makePSFromHDF5 / makePSFromTXT,
                  which must receive the same four expressions); axis_steps = first argument of PhaseSpace::setSize
+  ps_Meter, ps_ElectronVolt   what main() passes for the PhaseSpace constructor parameters that become the "Meter" scale of
+                 axis 0 / the "ElectronVolt" scale of axis 1 (pairing read from the constructor's own Ruler constructions)
 Everything is inlined down to the leaves: options (O_<getter>), physical constants (C_<name>), program state
 (S_<local>); conditions become the abstract predicates of Model/ScalingOps.v (o_lt, o_is0 ...), sqrt/sign/ceil the
 abstract functions o_sqrt ...; pow with a small literal exponent is a product.  Conversions between arithmetic types are
@@ -60,6 +62,9 @@ def translate():
         Q["dynrf_revolutionpart"] = R["dynrf_revolutionpart"]
     for nm in ("qmin", "qmax", "pmin", "pmax", "steps"):
         Q[("axis_" if nm == "steps" else "") + nm] = R["axis_" + nm]
+    # (st2h5) the unit scales the first grid carries into the results file ("Meter" of axis 0, "ElectronVolt" of axis 1)
+    Q["ps_Meter"] = R["ps_scale_Meter"]
+    Q["ps_ElectronVolt"] = R["ps_scale_ElectronVolt"]
     em = sl.EmitK()
     defs = []
     for nm, e in Q.items():
